@@ -2699,6 +2699,10 @@ func (p *Parser) evaluateSubscript(ctx context) (Expression, error) {
 	}
 
 	if !isSlice {
+		// A single index has no separate end-index, the start-index must only be evaluated once.
+		if !gotRange {
+			endIndex = nil
+		}
 		return StringSubscript{
 			value:      value,
 			startIndex: startIndex,
